@@ -321,17 +321,34 @@ Inductive consumer := ProxyStream | ProxyBuffered | Fastcgi.
    however net/http hands the body error back (unchanged for a chunked upload, wrapped in a
    *net.OpError ("readfrom") when the request has a Content-Length) the answer is 413;
    with several upstreams and try_duration the body is buffered first: the too-large error of
-   newBufferedBody answers 413 (casket c877bef; before, 400 like any other read error); fastcgi's client ignores the error of io.Copy(stdin, body) and relays
-   whatever the responder says (200 here) *)
+   newBufferedBody answers 413 (casket c877bef; before, 400 like any other read error);
+   fastcgi's client gives up when the body cannot be read to its end and Handler.ServeHTTP maps
+   ErrMaxBytesExceeded to 413 (casket e7d21d5; before, Do ignored the error of io.Copy(stdin, body),
+   ended the stream and relayed the responder's answer to the truncated body) *)
 Definition consumer_status (k : consumer) (cl_framed : bool) (e : option rerr) (backend_status : Z) : Z :=
   match e with
   | Some TooLarge =>
     match k with
     | ProxyStream => 413
     | ProxyBuffered => 413
-    | Fastcgi => backend_status
+    | Fastcgi => 413
     end
   | _ => backend_status
+  end.
+(* how much of an over-limit upload has reached the backend when the consumer gives up: the
+   streaming proxy's transport has sent the first [limit] bytes; the buffering proxy contacts
+   nobody (-1); fastcgi's stdin stream goes through a bufio.Writer of maxWrite = 65500 bytes that
+   is flushed only when full and NOT when Do gives up, so whole records only (when the limit is
+   a multiple of 65500 the last full buffer is flushed or not depending on whether the reader
+   reported the error together with the last bytes) *)
+Definition fcgi_max_write : Z := 65500.
+Definition backend_gets_ok (k : consumer) (limit obk : Z) : bool :=
+  match k with
+  | ProxyStream => obk =? limit
+  | ProxyBuffered => obk =? -1
+  | Fastcgi => let q := limit / fcgi_max_write in
+               (obk =? fcgi_max_write * q) ||
+               ((limit mod fcgi_max_write =? 0) && (1 <=? q) && (obk =? fcgi_max_write * (q - 1)))
   end.
 (* the consumer reads the body to the end (or the first error) with some buffer sizes *)
 Definition consumer_reads (limit : Z) (body : list N) (script : list nat) (eofd : bool) (bufs : list nat)
@@ -510,12 +527,12 @@ Definition judge (c : case) : N :=
       let over := limit <? Z.of_nat bodylen in
       let e := if over then Some TooLarge else Some EOF in
       let m_status := consumer_status k (negb chunked) e 200 in
-      let m_backend := if over && (kind =? 1)%N then -1 else Z.min (Z.of_nat bodylen) limit in
+      let backend_ok := if over then backend_gets_ok k limit obk else obk =? Z.of_nat bodylen in
       (* net/http drains up to 256 KiB of an unread body to keep the connection, else closes it *)
       let leftover := Z.of_nat bodylen - limit in
       let fu_ok := if leftover <=? 200000 then fu =? 204
                    else if 300000 <=? leftover then fu =? -2 else (fu =? 204) || (fu =? -2) in
-      let agree := (m_status =? ost) && (m_backend =? obk) && fu_ok in
+      let agree := (m_status =? ost) && backend_ok && fu_ok in
       let spec := pfx && (obk <=? limit) && ((fu =? 204) || (fu =? -2)) &&
                   (if over then ost =? 413 else (ost =? 200) && (obk =? Z.of_nat bodylen) && (fu =? 204)) in
       verdict agree spec
